@@ -205,8 +205,8 @@ class TriangleBoundary(BoundaryDomain):
         return torch.logical_or(close_to_0, sum_close_to_1).reshape(-1, 1)
 
     def _bary_coords_close_to_0_or_1(self, bary_coord1, bary_coord2):
-        between_0_1 = torch.logical_and(0 <= bary_coord2, bary_coord2 <= 1)
-        close_to_0 = torch.isclose(bary_coord1, torch.tensor(0.0))
+        between_0_1 = torch.logical_and(-1e-5 <= bary_coord2, bary_coord2 <= 1 + 1e-5)
+        close_to_0 = torch.isclose(bary_coord1, torch.tensor(0.0), atol=1e-5)
         return torch.logical_and(close_to_0, between_0_1)
 
     def sample_random_uniform(
@@ -290,7 +290,7 @@ class TriangleBoundary(BoundaryDomain):
         return torch.divide(normals, torch.linalg.norm(normals, dim=1).reshape(-1, 1))
 
     def _add_local_normal_vector(self, normals, bary_coord, normal, i):
-        close_to_i = torch.where(torch.isclose(bary_coord, torch.tensor(i)), 1.0, 0.0)
+        close_to_i = torch.where(torch.isclose(bary_coord, torch.tensor(i), atol=1e-5), 1.0, 0.0)
         normals += normal * close_to_i
 
     def _get_normal_direction(self, direction, device):
